@@ -16,12 +16,19 @@ KEY_PKBUF = {"site": "ProverKey::to_var_bytes", "class": "len(q_m) < max len"}
 
 
 def scen_lines(res):
-    """Scenarios printed by the EmitScenarios invariant."""
+    """Scenarios printed by the EmitScenarios invariant: one string per line,
+    `"SCEN|<json with escaped quotes>"`."""
     out = []
+    tagged = 0
     for l in res.out.splitlines():
-        m = re.match(r'^<<"SCEN", "(.*)">>$', l.strip())
-        if m:
-            out.append(json.loads(m.group(1).replace('\\"', '"')))
+        if "SCEN|" not in l:
+            continue
+        tagged += 1
+        l = l.strip()
+        if l.startswith('"SCEN|') and l.endswith('"'):
+            out.append(json.loads(json.loads(l)[5:]))
+    if tagged != len(out):
+        raise vlib.ToolError("%d SCEN lines, %d parsed (wrapped output?)" % (tagged, len(out)))
     return out
 
 
